@@ -464,7 +464,11 @@ def resolve_name(obj, func, args, unknown=False):
 
 def forward_signatures(func, calls, args, kwargs, sig):
     if args or kwargs:
-        bap = sig.bind_partial(*args, **kwargs)
+        try:
+            bap = sig.bind_partial(*args, **kwargs)
+        except TypeError:
+            # func cannot be passed these arguments in the first place
+            raise UnknownForwards
     else:
         bap = EmptyBoundArguments()
     def rn(obj, unknown=True):
